@@ -19,7 +19,7 @@ func drive(c *fw.Ctx, scenario string, bound int, run func(x *explore.Exec, owne
 		run(x, true)
 		return explore.Stats{Execs: 1}
 	}
-	st := explore.Explore(explore.Config{Bound: bound, Deadline: c.Deadline, Shard: c.Shard, NShards: c.NShards, ShardDepth: 3, Claim: c.NextClaim()}, run)
+	st := explore.Explore(explore.Config{Bound: bound, Deadline: c.Deadline, Shard: c.Shard, NShards: c.NShards, ShardDepth: 3, Claim: c.NextClaim(), Retries: c.Retries}, run)
 	c.Res.Execs += st.Execs
 	c.Res.Points += st.Points
 	if st.MaxDepth > c.Res.MaxDepth {
@@ -27,6 +27,9 @@ func drive(c *fw.Ctx, scenario string, bound int, run func(x *explore.Exec, owne
 	}
 	if c.Verbose {
 		c.Res.Note("scenario %s: %d executions (shard %d/%d)", scenario, st.Execs, c.Shard, c.NShards)
+	}
+	if st.Retried > 0 {
+		c.Res.Count("executions_retried_after_transient_replay_divergence", st.Retried)
 	}
 	if st.Capped {
 		c.Res.Capped = true
